@@ -18,6 +18,7 @@ CONST = "CONST"        # literal text from repository source
 IDENT = "IDENT"        # result of PythonIdentifier / ClassName (sanitised identifier)
 WORD = "WORD"          # result of snake_case / pascal_case / kebab_case / sanitize: word characters and '-' '_' only
 NUM = "NUM"            # str()/repr() of an int, float or bool; HTTPStatus; counters
+NONFINITE = "NONFINITE"  # str()/repr() of a float not known to be finite: may read `inf` / `nan`, which are names, not literals
 ENUM = "ENUM"          # member/value of an enum defined in the repository
 PYREPR = "PYREPR"      # repr(x) / f"{x!r}" / "%r": a complete Python literal
 JSONREPR = "JSONREPR"  # str() of a non-str JSON value (numbers, bools, lists, dicts: element reprs)
